@@ -726,6 +726,125 @@ func appRelayDriver(a *Args) {
 
 func init() {
 	Drivers["apprelayc"] = appRelayConcurrentDriver
+	Drivers["appcron"] = appCronDriver
+}
+
+// appCronDriver replays the retention step of AppRelay (action Cron) on the real app: exchanges of
+// every class {fresh, older than two minutes} x {backend seen recently, quiet for two hours} x
+// {pending, completed} x {small, blob-sized} are created, the chosen ones are aged by rewriting the
+// StartTime of their entities in the fake datastore, /cron/delete runs, and what survived is recorded.
+// A client that is still waiting while the cron handler runs must get its answer.
+func appCronDriver(a *Args) {
+	res := a.Res
+	e := startAppEnv(res)
+	if e == nil {
+		return
+	}
+	defer e.stop()
+	hx.Reset("appcron", "appcron")
+	bs := map[bool]appBackend{
+		true:  {ID: "cron-seen", EndUser: "frank@example.com", BackendUser: "agent-k1@example.com", Prefixes: []string{"/"}, live: true},
+		false: {ID: "cron-quiet", EndUser: "grace@example.com", BackendUser: "agent-k2@example.com", Prefixes: []string{"/"}, live: true},
+	}
+	for _, b := range bs {
+		if st := e.addBackend(b); st != 200 {
+			res.Bad("add backend: %d", st)
+			return
+		}
+		e.setLastSeen(b.ID, time.Now())
+	}
+	type exch struct {
+		old, seen, completed, big bool
+		rid                       string
+	}
+	var all []exch
+	for _, old := range []bool{false, true} {
+		for _, seen := range []bool{true, false} {
+			for _, completed := range []bool{false, true} {
+				for _, big := range []bool{false, true} {
+					b := bs[seen]
+					size := 300
+					if big {
+						size = 1200000
+					}
+					rid, ch := e.clientRequest(b.EndUser, "POST", "/cron/x", pattern("cron-req", size), 8*time.Second)
+					if e.storedUnder(rid, 5*time.Second) != b.ID {
+						res.Bad("cron: request not stored under %s", b.ID)
+						return
+					}
+					if completed {
+						_, fetched, _, _ := e.do(e.agPort, "GET", "/agent/request", agentHdr(b.BackendUser, b.ID, rid), nil, 0)
+						_ = fetched
+						body := pattern("cron-resp-"+rid, size)
+						e.do(e.agPort, "POST", "/agent/response", agentHdr(b.BackendUser, b.ID, rid),
+							append([]byte(fmt.Sprintf("HTTP/1.1 200 OK\r\nContent-Length: %d\r\n\r\n", len(body))), body...), 0)
+						select {
+						case <-ch:
+						case <-time.After(10 * time.Second):
+						}
+					} else {
+						go func() { <-ch }() // the client gives up after its own timeout
+					}
+					all = append(all, exch{old, seen, completed, big, rid})
+				}
+			}
+		}
+	}
+	ents := func(rid string) (req, resp, parts int) {
+		for _, k := range e.ae.Entities("") {
+			switch {
+			case strings.HasPrefix(k, "req:") && strings.HasSuffix(k, "|"+rid):
+				req++
+			case k == "response|"+rid:
+				resp++
+			case strings.HasPrefix(k, "blobParts|"+rid+"."):
+				parts++
+			}
+		}
+		return
+	}
+	mine := func(k, rid string) bool {
+		return (strings.HasPrefix(k, "req:") && strings.HasSuffix(k, "|"+rid)) || k == "response|"+rid || strings.HasPrefix(k, "blobParts|"+rid+".")
+	}
+	type had struct{ req, resp, parts int }
+	before := map[string]had{}
+	aged := time.Now().Add(-3*time.Minute).UnixNano() / 1000
+	for _, x := range all {
+		r, p, q := ents(x.rid)
+		before[x.rid] = had{r, p, q}
+		if x.old {
+			for _, k := range e.ae.Entities("") {
+				if mine(k, x.rid) {
+					e.ae.SetInt64Prop(k, "StartTime", aged)
+				}
+			}
+		}
+	}
+	e.setLastSeen(bs[false].ID, time.Now().Add(-2*time.Hour))
+	// a live exchange across the cron run: the client is waiting while the handler deletes
+	liveB := bs[true]
+	lrid, lch := e.clientRequest(liveB.EndUser, "GET", "/cron/live", nil, 20*time.Second)
+	e.storedUnder(lrid, 5*time.Second)
+	st, _, _, _ := e.do(e.apiPort, "GET", "/cron/delete", map[string]string{"X-Appengine-Cron": "true"}, nil, 30*time.Second)
+	hx.Emit("CronRun", "status", st)
+	e.do(e.agPort, "GET", "/agent/request", agentHdr(liveB.BackendUser, liveB.ID, lrid), nil, 0)
+	e.do(e.agPort, "POST", "/agent/response", agentHdr(liveB.BackendUser, liveB.ID, lrid), []byte("HTTP/1.1 200 OK\r\nContent-Length: 9\r\n\r\nlive-answ"), 0)
+	liveOK := false
+	select {
+	case r := <-lch:
+		liveOK = r.status == 200 && string(r.body) == "live-answ"
+	case <-time.After(25 * time.Second):
+	}
+	hx.Emit("CronLive", "ok", liveOK)
+	for _, x := range all {
+		r, p, q := ents(x.rid)
+		h := before[x.rid]
+		sig := fmt.Sprintf("cron:old=%v/seen=%v/completed=%v/big=%v", x.old, x.seen, x.completed, x.big)
+		hx.Emit("CronCase", "sig", sig, "old", x.old, "seen", x.seen, "completed", x.completed, "big", x.big,
+			"had_req", h.req > 0, "had_resp", h.resp > 0, "had_parts", h.parts > 0,
+			"req_survives", r > 0, "resp_survives", p > 0, "parts_survive", q > 0)
+		res.Case(sig, map[string]interface{}{"old": x.old, "backend_seen": x.seen, "completed": x.completed, "blob": x.big, "request_entity_survives": r > 0})
+	}
 }
 
 func appRelayConcurrentDriver(a *Args) {
